@@ -48,6 +48,11 @@ add('C03', 'exploration',
     'Inputs are well-formed by construction, so any exception is a violation; 1e-9 tolerances; 13 open known findings (UKF breakdown; closed-form singularities of SAAM/FAMC/FLAE/FQA/QUEST at exact axis-aligned poses; FLAE symbolic on exactly consistent data) are keyed by component, symptom and an input-feature trigger pattern.',
     'deterministic simulation: seeded scheduler + sensor-bus fault injection, per-step validity invariant on real filter instances', 'DESIGN.md section 2 C03')
 
+add('C08', 'exploration',
+    'Seeded search over simulated trajectories: constant-rate runs (AngularRate closed form streamed and batch vs the closed-form truth at every tick; series orders 0-6 against the closed form per step), motion histories with accelerometer dropouts (Madgwick, Mahony, AQUA must advance by the normalised first-order step on every null-accelerometer tick; EKF.f and ROLEQ.attitude_propagation on every tick), and recorder round trips (angular_velocities re-integrated).',
+    'Closed-form truth computed by the harness; series bound constant 2.5 and round-trip constant 0.05 from probes on the repaired tree; the asymptotic-order clause is a per-step comparison, the weakest fit for this technique.',
+    'deterministic simulation: time-stepping nodes vs closed-form truth of simulated time, dropout injection for the dead-reckoning clause', 'DESIGN.md section 2 C08')
+
 def build():
     m = {
         'version': 1,
